@@ -365,12 +365,13 @@ def rng_choice(n, seq):
 # ======================================================================================= C09
 
 ALGS = ["md5", "sha1", "sha224", "sha256", "sha384", "sha512"]
-SECRETS = ["pw!one", "", "ünï!cöde", "x!" * 40, "a", "pass word!", "Pw!One", "\u0000nul!", "user:pass", "root:toor!", ":", "YWJj:ZGVm", "e\u0301le\u0300ve!", "\u212bngstro\u0308m!", "\u1100\u1161!pw"]
+SECRETS = ["pw!one", "", "ünï!cöde", "x!" * 40, "a", "pass word!", "Pw!One", "\u0000nul!", "user:pass", "root:toor!", ":", "YWJj:ZGVm", "e\u0301le\u0300ve!", "\u212bngstro\u0308m!", "\u1100\u1161!pw",
+           " lead!pw", "trail!pw ", "\tt!b\n", "  "]
 
 
 def neighbours(p):
     b = p if isinstance(p, bytes) else p.encode()
-    out = [b[:-1], b + b"\x00", b + b" ", b" " + b, b.swapcase(), b"", b[1:], b + b[-1:], b[::-1]]
+    out = [b[:-1], b + b"\x00", b + b" ", b" " + b, b.swapcase(), b"", b[1:], b + b[-1:], b[::-1], b.strip(), b.lstrip(), b.rstrip()]
     return [q for q in out if q != b]
 
 
@@ -395,6 +396,9 @@ class ChallengeScenario(Scenario):
                 f["default"] = "none"
             if rng.random() < 0.3:
                 f["validator"] = rng.choice(["arg", "decorator"])     # a custom validator that accepts and returns what it is given
+            if rng.random() < 0.3 and f["where"] != "list":
+                # bound to an environment variable that is unset, or defined but empty: "as if no binding existed"
+                f["env"] = rng.choice(["unset", "empty"])
             fields.append(f)
         return {"fields": fields, "max_ops": rng.randint(6, self.max_ops), "formats": rng.sample(ops.FORMATS, rng.randint(1, 5))}
 
@@ -407,6 +411,10 @@ class ChallengeScenario(Scenario):
                 kw["default"] = f["dv"]
             elif f["default"] == "digest":
                 kw["default"] = DigestValue(bytes.fromhex(f["dv"][0]), bytes.fromhex(f["dv"][1]), getattr(hashlib, f["alg"]))
+            if f.get("env"):
+                kw["env"] = "C09_%s" % f["key"].upper()
+                if f["env"] == "empty":
+                    st.world.env[kw["env"]] = ""
             if f.get("validator") == "arg":
                 kw["validator"] = lambda cfg, value: value
             fld = cc.ChallengeField(f["alg"] if st.world.seed % 2 else f["alg"].upper(), **kw)
